@@ -35,3 +35,28 @@ package coreutil
 //@ modifies nothing
 //@ props C03 C04 C12
 //@ ensures fresh(result) && result.sched == sched && result.lastNow == 0 && result.overdueDuration == 0 && result.timer == nil
+
+// ---------------------------------------------------------------- schedule wrapper that reports the finish once
+
+//@ event on_finish
+
+//@ fieldfunc callbackOnFinishSchedule.onFinish
+//@ ensures ev(on_finish) == old(ev(on_finish)) + 1
+//@ modifies ev(on_finish)
+
+//@ func NewCallbackOnFinishSchedule
+//@ props C02 C12 C03
+//@ modifies nothing
+//@ ensures typeis(result, *callbackOnFinishSchedule) && fresh(result.(*callbackOnFinishSchedule)) && result.(*callbackOnFinishSchedule).Schedule == s && !once(result.(*callbackOnFinishSchedule).onFinishOnce)
+
+//@ func (s *callbackOnFinishSchedule) Next
+//@ props C02 C12 C03
+//@ ensures [passes-through] ts == result_of(s.Schedule.Next, 0) && ok == result_of(s.Schedule.Next, 1) && calls(s.Schedule.Next) == 1
+//@ ensures [finish-reported-exactly-once] ev(on_finish) - old(ev(on_finish)) == ite(!ok && !old(once(s.onFinishOnce)), 1, 0)
+//@ ensures [finish-is-remembered] imp(!ok || old(once(s.onFinishOnce)), once(s.onFinishOnce))
+
+//@ func (s *callbackOnFinishSchedule) Left
+//@ props C02 C12 C03
+//@ ensures [passes-through] result == result_of(s.Schedule.Left, 0) && calls(s.Schedule.Left) == 1
+//@ ensures [finish-reported-exactly-once] ev(on_finish) - old(ev(on_finish)) == ite(result == 0 && !old(once(s.onFinishOnce)), 1, 0)
+//@ ensures [finish-is-remembered] imp(result == 0 || old(once(s.onFinishOnce)), once(s.onFinishOnce))
